@@ -1,15 +1,16 @@
 ------------------------------ MODULE Fragments ------------------------------
 (* Input generator for the "all strings" properties (C07, C18) one level     *)
 (* above Strings.tla: the input is built from syntactic fragments of the     *)
-(* abbreviation language (an element name, #id, .class, attribute sets of    *)
+(* abbreviation language or of a document (an element name, #id, .class, attribute sets of    *)
 (* every kind, text, repeaters, numbering forms, operators, brackets), one   *)
 (* fragment per step.  Every sequence of up to MaxFrag fragments is a state, *)
 (* well formed or not, so combinations that need six to ten characters of a  *)
 (* particular shape (a quoted value without name next to an id, a numbering  *)
 (* form with parent modifier and base inside a class, a function call        *)
 (* followed by a value without delimiter) are all reached.                   *)
-(* "BS" / "DQ" stand for backslash / double quote inside a fragment (cfg     *)
-(* files cannot hold them); they are replaced wherever they occur.           *)
+(* "BS" / "DQ" / "NL" / "CR" stand for backslash / double quote / line feed  *)
+(* / carriage return inside a fragment (cfg files cannot hold them); they    *)
+(* are replaced wherever they occur.                                         *)
 EXTENDS Common, Json
 CONSTANTS Frags, MaxFrag
 VARIABLES s, n
@@ -18,6 +19,8 @@ RECURSIVE Subst(_)
 Subst(f) == IF f = "" THEN ""
             ELSE IF Len(f) >= 2 /\ SubSeq(f, 1, 2) = "BS" THEN "\\" \o Subst(SubSeq(f, 3, Len(f)))
             ELSE IF Len(f) >= 2 /\ SubSeq(f, 1, 2) = "DQ" THEN "\"" \o Subst(SubSeq(f, 3, Len(f)))
+            ELSE IF Len(f) >= 2 /\ SubSeq(f, 1, 2) = "NL" THEN "\n" \o Subst(SubSeq(f, 3, Len(f)))
+            ELSE IF Len(f) >= 2 /\ SubSeq(f, 1, 2) = "CR" THEN "\r" \o Subst(SubSeq(f, 3, Len(f)))
             ELSE SubSeq(f, 1, 1) \o Subst(Tail(f))
 Init == s = "" /\ n = 0
 Next == n < MaxFrag /\ \E f \in Frags : s' = s \o Subst(f) /\ n' = n + 1
